@@ -82,6 +82,8 @@ type c19In struct {
 	WordLists                  [][]byte // bitword words of the plain strings, complete and cut short
 	WordWidths                 []int    // the width WordLists[i] is to be read with
 	WordComplete               int      // the first WordComplete lists fill their last byte
+	LongStrs                   []string // 4100 short strings
+	LongWords                  [][]byte // their 2-bit words
 	TB                         *bitmap.TailBitmap
 	Longs                      [][]uint64 // bitmaps whose lengths sit around powers of two (index builders)
 	Pos                        []int32
@@ -494,6 +496,18 @@ func c19Build(k int, al alloc) *c19In {
 		in.WordLists = append(in.WordLists, al.bytes(refWords(p, c19Widths[i%4])))
 		in.WordWidths = append(in.WordWidths, c19Widths[i%4])
 	}
+	// a list long enough for any chunked / parallel element-wise conversion (4100 > 4096)
+	{
+		var ls []string
+		var lw [][]byte
+		for i := 0; i < 4100; i++ {
+			x := string([]byte{byte(i), byte(i >> 8), byte(k)})
+			ls = append(ls, x[:1+i%3])
+			lw = append(lw, al.bytes(refWords(x[:1+i%3], 2)))
+		}
+		in.LongStrs = al.strs(ls)
+		in.LongWords = lw
+	}
 	in.WordComplete = len(in.WordLists)
 	// word lists that do NOT fill their last byte (ToStr has to pad): every width < 8, 1..3 words short
 	for i, p := range plain {
@@ -679,6 +693,35 @@ func c19Alphabet() []c19Call {
 				}
 			}
 			return c19HexList(bitword.BitWord[c19Widths[k%4]].ToStrs(lists))
+		}, false},
+		{"bitword.FromStrs/ToStrs/long-list", func(*c19In) int {
+			if c19Instrumented {
+				return 1 // the long variants stay out of the schedule explorers
+			}
+			return 3
+		}, func(in *c19In, k int) interface{} {
+			// variant 0 is short (the schedule explorer picks it); 1 and 2 convert 4100 elements: a conversion
+			// that splits long lists into chunks (and runs them side by side) is reached by the order,
+			// footprint, retained and race passes
+			switch k {
+			case 1:
+				r := bitword.BitWord[4].FromStrs(in.LongStrs)
+				h := sha1.New()
+				for _, x := range r {
+					h.Write(x)
+					h.Write([]byte{0xff})
+				}
+				return fmt.Sprintf("%d elements, sha1 %x", len(r), h.Sum(nil)[:8])
+			case 2:
+				r := bitword.BitWord[2].ToStrs(in.LongWords)
+				h := sha1.New()
+				for _, x := range r {
+					h.Write([]byte(x))
+					h.Write([]byte{0xff})
+				}
+				return fmt.Sprintf("%d elements, sha1 %x", len(r), h.Sum(nil)[:8])
+			}
+			return c19HexList(bitword.BitWord[8].ToStrs(bitword.BitWord[8].FromStrs(in.Strs[:2])))
 		}, false},
 		{"bitword.FromStrs", func(*c19In) int { return 4 }, func(in *c19In, k int) interface{} {
 			return bitword.BitWord[c19Widths[k%4]].FromStrs(in.Strs[:3]) // the slices themselves: re-read and poked after the pass
@@ -1001,7 +1044,15 @@ func c19Footprint(c *mc.Ctx) (digest string) {
 		if sp := ha.spareIntact(); sp != "" {
 			c.Fail(5<<50|int64(set)<<40, "spare", "spare", c19Case{Input: set, Note: "forward pass over the whole alphabet"}, sp, "spare capacity of every argument untouched")
 		}
-		all = append(all, fwd)
+		// the digest is compared with the instrumented binary's, which does not have the long variants
+		dig := make([][]string, len(fwd))
+		for ci := range fwd {
+			dig[ci] = fwd[ci]
+			if strings.HasSuffix(alpha[ci].Name, "/long-list") && len(dig[ci]) > 1 {
+				dig[ci] = dig[ci][:1]
+			}
+		}
+		all = append(all, dig)
 		for _, r := range retained {
 			c.Fail(3<<50|int64(set)<<40|int64(r.Call)<<20|int64(r.Variant), "retained", "retained", c19Case{Call: alpha[r.Call].Name, Variant: r.Variant, Input: set}, "value returned earlier now reads "+clipS(r.Now), "value as returned: "+clipS(r.Then))
 		}
